@@ -1,5 +1,6 @@
 import CandidModel.Wire
 import CandidModel.Proofs.CoerceSound
+import CandidModel.Proofs.CoerceInhab
 /-
   C04 — Accepted subtyping means decoding at the supertype cannot fail.
   Mechanism lemmas about `Wire.coerce`, the μ-opt witness, and the soundness theorem on the specification side:
@@ -99,6 +100,26 @@ theorem accepted_by_the_checker_means_coercion_cannot_fail (env : Env) (hg : Goo
   have hse : Sub.safeTy env e = true := by simp only [goodTy, Bool.and_eq_true] at he; exact he.1
   exact coerce_sound env hg fuel w e v n hw he hc
     (Sub.subAlg_sound_history env hg.1 k [] g' w e hsw hse (Sub.justified_nil env) hacc).1
+
+/-- **the second half of coercion soundness: whatever the coercion returns is a value of the expected type.**
+  For every environment whose types are well formed, every pair of types (no subtyping hypothesis is needed:
+  a successful coercion is its own witness), every value canonical at the wire type and every budget: the
+  result inhabits the expected type (`inhab`: the typing judgement of values as the decoder returns them, where
+  a variant remembers its label and a blob may stand for a vector of bytes). Together with
+  `coercion_of_a_subtype_value_never_fails` this is `v : t₁ ∧ t₁ <: t₂ ⇒ coerce v : t₂` of the specification. -/
+theorem coercion_result_inhabits_the_expected_type (env : Env) (hg : GoodEnv env) (fuel : Nat) (w e : Ty) (v v' : Val) (n : Nat)
+    (hw : goodTy env w = true) (he : goodTy env e = true) (hc : canon env n v w = true)
+    (h : coerce env true env fuel w e v = .ok v') : inhab env (ibound env n fuel) v' e = true :=
+  coerce_inhab env hg fuel w e v n v' hw he hc h
+
+/-- the typing judgement is monotone in its budget, so the bound above is only a witness that some budget works -/
+theorem inhabitation_is_monotone_in_the_budget (env : Env) (n m : Nat) (h : n ≤ m) (v : Val) (t : Ty)
+    (hv : inhab env n v t = true) : inhab env m v t = true := inhab_le env n m h v t hv
+
+/-- non-vacuity of the above: the record coercion below succeeds and fills in the missing optional field -/
+example : coerce [] true [] 3 (.record (.cons (.id 0) (.prim .nat) .nil))
+    (.record (.cons (.id 0) (.prim .int) (.cons (.id 1) (.opt (.prim .text)) .nil))) (.record [(.id 0, .nat 7)])
+    = .ok (.record [(.id 0, .int 7), (.id 1, .none)]) := by rfl
 
 /-- non-vacuity: `record {0 : nat} <: record {0 : int; 1 : opt text}` on a value -/
 example : canon [] 5 (.record [(.id 0, .nat 7)]) (.record (.cons (.id 0) (.prim .nat) .nil)) = true ∧
